@@ -117,7 +117,7 @@ Section GuardedLoops.
             else
               do r' <- worker_guarded fuel' st' (size - Decomp.zlen tmp) max_block 0 (tl sched);
               let '(st'', out) := r' in Ok (st'', tmp ++ out)
-          else if Decomp.consumed st' =? Decomp.consumed st then
+          else if Decomp.idle st st' then
             if MAX_STALLED_ROUNDS <? stalled + 1 then Err EBad7z
             else worker_guarded fuel' st' size max_block (stalled + 1) (tl sched)
           else worker_guarded fuel' st' size max_block stalled (tl sched)
@@ -132,7 +132,7 @@ Section GuardedLoops.
       | S fuel' =>
           do r <- Decomp.decompress dstep st (usize - Decomp.zlen acc) (Decomp.sched_hd st sched);
           let '(st', chunk) := r in
-          if (Decomp.zlen chunk =? 0) && (Decomp.consumed st' =? Decomp.consumed st) then
+          if (Decomp.zlen chunk =? 0) && Decomp.idle st st' then
             if MAX_STALLED_ROUNDS <? stalled + 1 then Err EBad7z
             else header_guarded fuel' st' usize (acc ++ chunk) (stalled + 1) (tl sched)
           else header_guarded fuel' st' usize (acc ++ chunk) 0 (tl sched)
@@ -342,7 +342,8 @@ Section Loops.
     induction ss as [|s ss IH]; intros up us data ml H; cbn [Decomp.chain_run] in H; [discriminate|].
     destruct up as [|u up]; [discriminate|]. destruct us as [|z us]; [discriminate|].
     destruct (u <? z).
-    - destruct (dstep s data ml) as [s' out].
+    - destruct (dstep s data ml) as [s' out]. cbv zeta in H.
+      destruct (Decomp.stop_here ss data (Decomp.trim_out ss out (z - u))); [discriminate|].
       apply bind_fuel in H. destruct H as [H|[[[ss'' up''] d] [_ H]]]; [exact (IH _ _ _ _ H)|discriminate].
     - destruct (dzlen data =? 0); [|discriminate].
       apply bind_fuel in H. destruct H as [H|[[[ss'' up''] d] [_ H]]]; [exact (IH _ _ _ _ H)|discriminate].
@@ -423,7 +424,7 @@ Section Loops.
             else
               do r' <- worker_guarded dstep fuel' st' (size - dzlen tmp) mb 0 (tl sched);
               let '(st'', out) := r' in Ok (st'', tmp ++ out)
-          else if Decomp.consumed st' =? Decomp.consumed st then
+          else if Decomp.idle st st' then
             if MAX_STALLED_ROUNDS <? stalled + 1 then Err EBad7z
             else worker_guarded dstep fuel' st' size mb (stalled + 1) (tl sched)
           else worker_guarded dstep fuel' st' size mb stalled (tl sched)
@@ -439,7 +440,7 @@ Section Loops.
       | S fuel' =>
           do r <- Decomp.decompress dstep st (usize - dzlen acc) (Decomp.sched_hd st sched);
           let '(st', chunk) := r in
-          if (dzlen chunk =? 0) && (Decomp.consumed st' =? Decomp.consumed st) then
+          if (dzlen chunk =? 0) && Decomp.idle st st' then
             if MAX_STALLED_ROUNDS <? stalled + 1 then Err EBad7z
             else header_guarded dstep fuel' st' usize (acc ++ chunk) (stalled + 1) (tl sched)
           else header_guarded dstep fuel' st' usize (acc ++ chunk) 0 (tl sched)
@@ -447,9 +448,11 @@ Section Loops.
     else Ok (st, acc).
   Proof. destruct fuel; reflexivity. Qed.
 
-  (* rounds still possible: 18 for every byte still wanted or still in the file, and the stall budget *)
+  (* rounds still possible: 18 for every byte still wanted, still in the file, or still to be put out by a coder
+     of the chain before its gate closes (Decomp.budget: sum of max(0, _unpacksizes[i] - _unpacked[i])), and the
+     stall budget *)
   Definition guarded_measure (st : dst) (size stalled : Z) : Z :=
-    18 * (Z.max size 0 + dzlen (Decomp.fp_rest st)) + (17 - stalled).
+    18 * (Z.max size 0 + dzlen (Decomp.fp_rest st) + Decomp.budget st) + (17 - stalled).
 
   (* THE HEADLINE: the guarded loop ends -- with a result or an ordinary exception -- within a number of
      rounds linear in the declared size and the file size, for EVERY behaviour of the decoder stages,
@@ -462,11 +465,14 @@ Section Loops.
   Proof.
     induction fuel as [|fuel IH]; intros st size mb stalled sched Hst Hm; rewrite worker_guarded_unfold.
     - destruct (size >? 0) eqn:Es; [|discriminate]. exfalso.
-      unfold guarded_measure in Hm. pose proof (Decomp.zlen_nonneg (Decomp.fp_rest st)). lia.
+      unfold guarded_measure in Hm. pose proof (Decomp.zlen_nonneg (Decomp.fp_rest st)).
+      pose proof (Decomp.budget_nonneg _ st). lia.
     - destruct (size >? 0) eqn:Es; [|discriminate].
       destruct (Decomp.decompress dstep st (Z.min size mb) (Decomp.sched_hd st sched)) as [[st' tmp]|e] eqn:Hd; cbn [bind].
       2:{ intros H. inversion H; subst. exact (decompress_not_fuel _ _ _ Hd). }
       destruct (decompress_consumption _ _ _ _ _ Hd) as (d & Hd0 & Hdc & Hdf).
+      destruct (Decomp.decompress_progress _ dstep _ _ _ _ _ Hd) as (Hb1 & Hb2).
+      pose proof (Decomp.budget_nonneg _ st') as Hbn.
       pose proof (Decomp.zlen_nonneg (Decomp.fp_rest st')) as Hf'.
       unfold guarded_measure in *. unfold MAX_STALLED_ROUNDS.
       destruct (dzlen tmp >? 0) eqn:Et.
@@ -474,14 +480,15 @@ Section Loops.
         destruct (worker_guarded dstep fuel st' (size - dzlen tmp) mb 0 (tl sched)) as [[st'' out]|e] eqn:Hw;
           cbn [bind]; [discriminate|].
         intros H. inversion H; subst. revert Hw. apply IH; [lia|]. lia.
-      + destruct (Decomp.consumed st' =? Decomp.consumed st) eqn:Ec.
+      + destruct (Decomp.idle st st') eqn:Ec.
         * destruct (16 <? stalled + 1) eqn:E16; [discriminate|]. apply IH; [lia|]. lia.
-        * apply IH; [lia|]. lia.
+        * unfold Decomp.idle in Ec. apply andb_false_iff in Ec.
+          destruct Ec as [Ec|Ec]; apply Z.eqb_neq in Ec; [|specialize (Hb2 Ec)]; (apply IH; [lia|]; lia).
   Qed.
 
   (* in numbers: from a fresh count of stalled rounds *)
   Corollary worker_guarded_rounds (st : dst) (size mb : Z) (sched : list nat) (fuel : nat) :
-    18 * (Z.max size 0 + dzlen (Decomp.fp_rest st)) + 17 < Z.of_nat fuel ->
+    18 * (Z.max size 0 + dzlen (Decomp.fp_rest st) + Decomp.budget st) + 17 < Z.of_nat fuel ->
     worker_guarded dstep fuel st size mb 0 sched <> Err EFuel.
   Proof. intros H. apply worker_guarded_terminates; [lia|]. unfold guarded_measure. lia. Qed.
 
@@ -493,21 +500,28 @@ Section Loops.
   Proof.
     induction fuel as [|fuel IH]; intros st usize acc stalled sched Hst Hm; rewrite header_guarded_unfold.
     - destruct (usize - dzlen acc >? 0) eqn:Es; [|discriminate]. exfalso.
-      unfold guarded_measure in Hm. pose proof (Decomp.zlen_nonneg (Decomp.fp_rest st)). lia.
+      unfold guarded_measure in Hm. pose proof (Decomp.zlen_nonneg (Decomp.fp_rest st)).
+      pose proof (Decomp.budget_nonneg _ st). lia.
     - destruct (usize - dzlen acc >? 0) eqn:Es; [|discriminate].
       destruct (Decomp.decompress dstep st (usize - dzlen acc) (Decomp.sched_hd st sched)) as [[st' chunk]|e] eqn:Hd; cbn [bind].
       2:{ intros H. inversion H; subst. exact (decompress_not_fuel _ _ _ Hd). }
       destruct (decompress_consumption _ _ _ _ _ Hd) as (d & Hd0 & Hdc & Hdf).
+      destruct (Decomp.decompress_progress _ dstep _ _ _ _ _ Hd) as (Hb1 & Hb2).
+      pose proof (Decomp.budget_nonneg _ st') as Hbn.
       pose proof (Decomp.zlen_nonneg (Decomp.fp_rest st')) as Hf'. pose proof (Decomp.zlen_nonneg chunk) as Hc0.
       unfold guarded_measure in *. unfold MAX_STALLED_ROUNDS.
-      destruct ((dzlen chunk =? 0) && (Decomp.consumed st' =? Decomp.consumed st)) eqn:Eb.
+      destruct ((dzlen chunk =? 0) && Decomp.idle st st') eqn:Eb.
       + destruct (16 <? stalled + 1) eqn:E16; [discriminate|].
         apply IH; [lia|]. rewrite Decomp.zlen_app. lia.
-      + apply IH; [lia|]. rewrite Decomp.zlen_app. lia.
+      + apply andb_false_iff in Eb. destruct Eb as [Eb|Eb].
+        * apply IH; [lia|]. rewrite Decomp.zlen_app. lia.
+        * unfold Decomp.idle in Eb. apply andb_false_iff in Eb.
+          destruct Eb as [Eb|Eb]; apply Z.eqb_neq in Eb; [|specialize (Hb2 Eb)];
+            (apply IH; [lia|]; rewrite Decomp.zlen_app; lia).
   Qed.
 
   Corollary header_guarded_rounds (st : dst) (usize : Z) (sched : list nat) (fuel : nat) :
-    18 * (Z.max usize 0 + dzlen (Decomp.fp_rest st)) + 17 < Z.of_nat fuel ->
+    18 * (Z.max usize 0 + dzlen (Decomp.fp_rest st) + Decomp.budget st) + 17 < Z.of_nat fuel ->
     header_guarded dstep fuel st usize [] 0 sched <> Err EFuel.
   Proof.
     intros H. apply header_guarded_terminates; [lia|]. unfold guarded_measure.
@@ -561,7 +575,8 @@ Section Loops.
         (destruct (size >? 0) eqn:Es; [|lia]);
         destruct (stuck_round st (Z.min size mb) (Decomp.sched_hd st sched) Hs ltac:(lia)) as (st' & Hd & Hs' & Hc);
         rewrite Hd; cbn [bind]; change (dzlen [] >? 0) with false; cbv iota;
-        rewrite Hc, Z.eqb_refl; unfold MAX_STALLED_ROUNDS.
+        assert (Hml : 0 < Z.min size mb) by lia;
+        rewrite (Decomp.stuck_step_idle _ dstep quiet quiet_step st st' _ _ _ Hs Hml Hd); unfold MAX_STALLED_ROUNDS.
       - destruct (16 <? stalled + 1) eqn:E; [reflexivity|lia].
       - destruct (16 <? stalled + 1) eqn:E; [lia|].
         apply (IH st' size mb (stalled + 1) (tl sched) fuel Hs' Hsz Hmb); lia.
